@@ -315,7 +315,19 @@ def run_lagged_case(rng, res, riders):
     struct = (sr, T, tuple(sorted(var_lags.items())), tuple(sorted(names)), tuple(order), tuple(sorted(sizes.items())))
     case = {"semiring": list(sr), "T": T, "names": order, "sizes": sizes, "data": arr}
     results = {}
+    import math
+
+    period = 1
+    for lg in lags_present:
+        period = period * lg // math.gcd(period, lg)
     for label, fn, kw in [("naive", naive_sarkka_bilmes_product, {})] + [("sarkka-np%d" % k, sarkka_bilmes_product, {"num_periods": k}) for k in (1, 2, 3)]:
+        if kw:
+            # the blocked algorithm materialises a tensor over (num_periods * period + lag) copies of every variable: keep it below
+            # 2**21 entries (a few of these once took > 10 GB each and were killed by the kernel)
+            bits = sum((min(T, kw["num_periods"] * period) + var_lags[v]) * math.log2(sizes[v]) for v in var_lags)
+            if bits > 21:
+                res.count("sarkka:skipped-too-large")
+                continue
         try:
             with np.errstate(all="ignore"):
                 results[label] = funsor.to_funsor(fn(sum_op, prod_op, trans, time, gv, **kw))
